@@ -35,6 +35,10 @@ func init() {
 }
 
 func runC15(c *an.Ctx) {
+	// ---- R8: what makes a query anonymous or dropped: deleted profiles are not found; the access check sees the client's location
+	c.Floor("C15-R8", 2)
+	c.Borrow("C15-R8", runC03, func(o an.Obligation) bool { return o.Rule == "C03-R1" })
+	c.Borrow("C15-R8", runC10, func(o an.Obligation) bool { return o.Rule == "C10-R2" && strings.Contains(o.Key, "Wrap$1") })
 	c.Inf("C15-R6", "hand-off sweep", token.NoPos, "%d hand-offs of a fresh object to a function that keeps it examined in dnssvc and cmd",
 		sharedRetainedArgs(c, "C15-R6", "dnssvc.", "cmd."))
 	c.Floor("C15-R7", 1)
